@@ -3,6 +3,7 @@
 
 import numpy as np
 import scipy.special
+from scipy.integrate import quad
 
 from ..exponentialoflevymodel import ExponentialOfLevyModel
 from ...model import Parameters, ModelType
@@ -57,6 +58,14 @@ class _MertonLevyMeasure(LevyMeasure):
 
     def blumenthal_getoor_index(self) -> float:
         return 0.0
+
+    def _quad(self, func, a: float, b: float) -> float:
+        """The jump law sits within a few sigma_j of mu_j: split there as well as at 0 and +-1, a narrow law away from these
+        points is otherwise missed altogether by the quadrature of a long interval"""
+        mu_j, sigma_j = self.parameters.mu_j, self.parameters.sigma_j
+        centre = [mu_j + k * sigma_j for k in (-8.0, 0.0, 8.0)]
+        points = [a] + sorted({p for p in (-1.0, 0.0, 1.0, *centre) if a < p < b}) + [b]
+        return sum(quad(func, lo, hi)[0] for lo, hi in zip(points[:-1], points[1:]))
 
     @staticmethod
     def _helper_erf_aux(mu, sigma, x):
